@@ -139,7 +139,7 @@ func buildElem[E any](c *ctl, fs *fnset, cd codec[E]) {
 		x := cd.from(e)
 		fs.c.enter(0, x)
 		if fs.fail[x] {
-			return failure{x}
+			return fs.failed(x)
 		}
 		for _, y := range images(x) {
 			select {
